@@ -11,6 +11,8 @@ import random
 import re
 import time
 
+from concurrent.futures import ThreadPoolExecutor
+
 from common import run_lines, load_corpus, log, NCPU
 
 CODES = [0, 0, 1, 2, 7, -3, 255]
@@ -210,14 +212,33 @@ def op_class(tok):
     return tok.split(":")[0]
 
 
-def run_impl(ctx, cases, timeout=600):
-    """implementation logs; a crashed/hung shard is re-run so that every case gets its own answer"""
+def _par_lines(cmd, cases, timeout, nshards=NCPU):
+    """run_lines with one process per shard even for small batches (a case with a watchdog time-out takes seconds)"""
+    if not cases:
+        return []
+    k = max(1, min(nshards, len(cases)))
+    chunks = [cases[i::k] for i in range(k)]
+    with ThreadPoolExecutor(max_workers=k) as ex:
+        outs = list(ex.map(lambda ch: run_lines(cmd, ch, 1, timeout, "impl"), chunks))
+    res = [None] * len(cases)
+    for i, o in enumerate(outs):
+        for j, l in enumerate(o):
+            res[i + j * k] = l
+    return res
+
+
+def run_impl(ctx, cases, timeout=600, quick_watchdog=False):
+    """implementation logs; a crashed/hung shard is re-run so that every case gets its own answer.
+    quick_watchdog: 2 s stand for 'never' (only used while minimising an already failing script)"""
+    cmd = [ctx.impl_bin, "rt"]
+    if quick_watchdog:
+        cmd = ["env", "RT_WATCHDOG_MS=2000", "RT_WATCHDOG_SHORT_MS=1000"] + cmd
     out = [None] * len(cases)
     todo = list(range(len(cases)))
     for attempt in range(4):
         if not todo:
             break
-        res = run_lines([ctx.impl_bin, "rt"], [cases[i] for i in todo], NCPU, timeout, "impl")
+        res = _par_lines(cmd, [cases[i] for i in todo], timeout)
         nxt = []
         for i, r in zip(todo, res):
             if r == "SKIPPED":
@@ -342,9 +363,9 @@ def remove_op(toks, r):
     return res
 
 
-def fails(ctx, flavour_pid, rw, toks, seeds):
+def fails(ctx, flavour_pid, rw, toks, seeds, quick_watchdog=True):
     cases = ["%s %d %s" % (rw, s, " ".join(toks)) for s in seeds]
-    logs = run_impl(ctx, cases, timeout=300)
+    logs = run_impl(ctx, cases, timeout=300, quick_watchdog=quick_watchdog)
     ver = accept(ctx, cases, logs)
     for c, l, v in zip(cases, logs, ver):
         if v != "ok":
@@ -354,32 +375,73 @@ def fails(ctx, flavour_pid, rw, toks, seeds):
     return None
 
 
-def shrink(ctx, pid, case, budget=40, reps=8):
+def shrink(ctx, pid, case, wall=30.0, reps=8):
+    """greedy removal of operations under a short watchdog and a wall-clock budget; the result is confirmed under the
+    full watchdog (None if it is not: the caller then reports the original case)"""
     head = case.split()
     rw, seed, toks = head[0], int(head[1]), head[2:]
-    best = None
+    seeds = [seed + 4 * j for j in range(reps)] + [seed + 4 * j + 1 for j in range(reps // 2)] + [seed + 4 * j + 2 for j in range(reps // 2)]
+    t0 = time.time()
     improved = True
-    while improved and budget > 0:
+    found = False
+    while improved and time.time() - t0 < wall:
         improved = False
         for r in range(len(toks) - 1, -1, -1):
+            if time.time() - t0 >= wall:
+                break
             cand = remove_op(toks, r)
             if cand is None:
                 continue
-            budget -= 1
-            f = fails(ctx, pid, rw, cand, [seed + 4 * j for j in range(reps)] + [seed + 4 * j + 1 for j in range(reps // 2)] + [seed + 4 * j + 2 for j in range(reps // 2)])
-            if f:
+            if fails(ctx, pid, rw, cand, seeds):
                 toks = cand
-                best = f
+                found = True
                 improved = True
                 break
-            if budget <= 0:
-                break
-    return best
+    if not found:
+        return None
+    return fails(ctx, pid, rw, toks, seeds + [s + 3 for s in seeds], quick_watchdog=False)
 
 
 # ------------------------------------------------------------------------------------------------
 # the check
 # ------------------------------------------------------------------------------------------------
+# scripts aimed at narrow races; run under many tight timings (seed % 4 == 0: no delays at all between operations)
+BATTERY = {
+    "c09": [
+        # a stop issued immediately after Arbiter::new returned must still reach that arbiter (registered before `new` returns)
+        "n:f ss:{a}:f wr j:0",
+        "n:s ss:{a}:s wr j:0",
+        "n:f n:f n:f ss:{a}:f wr j:0 j:1 j:2",
+        "n:s n:f ss:{a}:t wr j:1 j:0",
+        # two stops queued back to back: the first one wins
+        "n:s ss:{a}:f ss:{b}:f wr j:0",
+        "ss:{a}:t ss:{b}:f wr",
+        "n:f ss:{a}:s ss:{b}:s ss:{a}:f wr j:0",
+        # an arbiter that ended earlier has deregistered (or not yet): the others are still stopped
+        "n:s n:s n:s st:1:o j:1 ss:{a}:f wr j:0 j:2",
+        "n:f n:f st:0:h ss:{a}:s wr j:0 j:1 sp:1:c:h",
+    ],
+    "c10": [
+        # commands racing stop(): whatever was sent after it must not start, order is kept
+        "n:s sp:0:c:o sp:0:c:h sp:0:c:t st:0:o sp:0:c:o sf:0:c:h j:0 sp:0:c:h ss:0:f wr",
+        "n:f sf:0:b:o sp:0:x:t sp:0:p:h sf:0:c:o st:0:t sp:0:c:o j:0 ss:0:s wr",
+        "n:s sp:0:s:o sp:0:c:o aw:0:1 sp:0:c:h j:0 sp:0:c:t ss:1:f wr",
+        "n:s n:s sp:0:c:o sp:1:c:o sp:0:c:t sp:1:c:t aw:0:4 aw:1:5 st:0:o st:1:h j:0 j:1 ss:0:f wr",
+    ],
+}
+
+
+def battery_cases(rng, flavour, reps):
+    out = []
+    for pat in BATTERY[flavour]:
+        for r in range(reps):
+            a = rng.choice([0, 1, 2, 7, -3, 255])
+            b = rng.choice([x for x in [0, 1, 2, 7, -3, 255] if x != a])
+            seed = rng.randrange(1, 10 ** 6) * 4 + (0 if r % 4 else 1)
+            out.append("%s %d %s" % ("R" if r % 5 == 0 else "W", seed, pat.format(a=a, b=b)))
+    return out
+
+
 def small(script):
     toks = script.split()
     return len(toks) <= 9 and sum(1 for t in toks if op_class(t) == "n") <= 2
@@ -398,7 +460,7 @@ def check(ctx, pid):
         if s and s not in seen:
             seen.add(s)
             scripts.append(s)
-    cases = list(corpus)
+    cases = list(corpus) + battery_cases(ctx.rng, flavour, 40 if quick else 400)
     for i, s in enumerate(scripts):
         base = ctx.rng.randrange(1, 10 ** 6) * 4
         userun = (i % 4 == 0)
@@ -416,7 +478,7 @@ def check(ctx, pid):
             mine.setdefault(key, []).append((c, l, v))
         else:
             foreign += 1
-    for key, lst in list(mine.items())[:4]:
+    for key, lst in list(mine.items())[:2]:
         c, l, v = min(lst, key=lambda x: len(x[0]))
         sh = shrink(ctx, pid, c)
         if sh:
